@@ -147,8 +147,11 @@ def write_evidence(prop, wl, tier, seed, agg, wall, n_unknown, workers,
               if k.startswith("probe.")}
     per_op = {k[len("op."):]: v for k, v in sorted(c.items())
               if k.startswith("op.")}
+    cover = {k[len("cover."):]: v for k, v in sorted(c.items())
+             if k.startswith("cover.")}
     other = {k: v for k, v in sorted(c.items())
-             if not k.startswith(("fault.", "switch.", "probe.", "op."))}
+             if not k.startswith(("fault.", "switch.", "probe.", "op.",
+                                  "cover."))}
     evaluations = int(c.get("ops", 0))
     coverage = {
         "evaluations": max(1, evaluations),
@@ -168,6 +171,7 @@ def write_evidence(prop, wl, tier, seed, agg, wall, n_unknown, workers,
             p for p in getattr(wl, "EXPECTED_PROBES", [])
             if not c.get("probe." + p)),
         "per_operation_counts": per_op,
+        "input_grammar_coverage": cover,
         "counters": other,
         "distinct_abstract_states": len(agg.sets.get("states", ())),
         "components_real": [
